@@ -368,6 +368,15 @@ impl Scenario for Hist {
                             Op::new(Kind::Savepoint, format!("SAVEPOINT {}", n)).named(&n)
                         }
                     }
+                } else if rng.chance(1, 6) {
+                    // fault: a statement that tries to open a transaction inside the open one must be
+                    // rejected and must not disturb what ROLLBACK / COMMIT will do
+                    if rng.chance(2, 3) {
+                        Op::new(Kind::Begin, "BEGIN".into()).fault("nested-begin")
+                    } else {
+                        let n = self.world.fresh_name("sch");
+                        Op::new(Kind::Other, format!("CREATE SCHEMA {}", n)).fault("schema-in-tx")
+                    }
                 } else if rng.chance(1, 2) {
                     Op::new(Kind::Commit, "COMMIT".into())
                 } else {
